@@ -136,3 +136,23 @@ def ctor_of(t):
         n = t.decl().name()
         return n[1:] if t.sort() == PPat else n
     return None
+
+
+# ---- spec machine state / loop summaries (C05, C04, C14) ---------------------------------------------------------------------------
+SMState = z3.Datatype('SMState')
+SMState.declare('reject')
+SMState.declare('st', ('st_stack', TL), ('st_mem', TL), ('st_claims', ML))
+SMState = SMState.create()
+SMS = ADT(SMState)
+
+TakeRes = z3.Datatype('TakeRes')
+TakeRes.declare('tfail')
+TakeRes.declare('tdone', ('t_ids', IdL), ('t_plugs', ML), ('t_rest', IdL), ('t_stack', TL))
+TakeRes = TakeRes.create()
+TKR = ADT(TakeRes)
+
+ReadRes = z3.Datatype('ReadRes')
+ReadRes.declare('rfail')
+ReadRes.declare('rdone', ('r_list', IdL), ('r_rest', IdL))
+ReadRes = ReadRes.create()
+RDR = ADT(ReadRes)
